@@ -286,3 +286,24 @@ pub open spec fn seg_range_ok(s: Segment) -> bool {
     s.start_offset <= s.current_offset && s.current_offset - s.start_offset < 0x1_0000_0000 && s.end_offset < u64::MAX
 }
 pub open spec fn segs_range_ok(s: Seq<Segment>) -> bool { forall|i: int| 0 <= i < s.len() ==> seg_range_ok(#[trigger] s[i]) }
+
+impl Segment {
+    // `spec_is_expired` is an UNINTERPRETED function of (segment, now) in units offsets / recovery ("the decision is the business of C14");
+    // here it is the decision this unit proves, [C14.dec]
+    pub open spec fn spec_is_expired(&self, now: IggyTimestamp) -> bool { seg_expired(*self, now.micros as int) }
+
+    // copied from units/offsets/prelude.rs, stub `Segment::is_expired`
+    // label: C14.link.offsets.is_expired
+    pub fn link_offsets_is_expired(&self, now: IggyTimestamp) -> (r: bool)
+        ensures r == self.spec_is_expired(now), !self.is_closed ==> !r,
+    {
+        self.is_expired(now)
+    }
+    // copied from units/recovery/prelude.rs, stub `Segment::is_expired`
+    // label: C14.link.recovery.is_expired
+    pub fn link_recovery_is_expired(&self, now: IggyTimestamp) -> (r: bool)
+        ensures r == self.spec_is_expired(now), !self.is_closed ==> !r,
+    {
+        self.is_expired(now)
+    }
+}
